@@ -15,7 +15,7 @@ RULE = ("every call of TransformationTensor.apply (workload, library-internal an
         "matrix, words reducing to the identity must return the original, (s*t)*x vs s*(t*x). Matrices: integer (entries <= 3, incl. genuinely "
         "projective last rows), rational-free floats, rotations/translations; 2D and 3D; single objects and collections. "
         "Non-trivial = transformation is not a multiple of the identity; distinct by (matrix, object) digest."
-        " Also: index types of every image (trailing axes, shifted by the collection axes), transformation collections with more axes than the collection they act on (applied twice), batches of 64-80 matrices with two and three collection axes, exponents 27, 30, -30 on rotations / translations / shears, in-place edited transformations; unipotent matrices whose nilpotent part does not square to zero; transformations built from a tensor stored with the contravariant index first (transpose(), covariant=[1]).")
+        " Also: index types of every image (trailing axes, shifted by the collection axes), transformation collections with more axes than the collection they act on (applied twice), batches of 64-80 matrices with two and three collection axes, exponents 27, 30, -30 on rotations / translations / shears, in-place edited transformations; unipotent matrices whose nilpotent part does not square to zero; transformations built from a tensor stored with the contravariant index first (transpose(), covariant=[1]); translations by 4e-9 raised to 2^31 and doubled 30 times, composed with ordinary maps (no factor may be dropped).")
 SHARDS = (8, 16)
 REQUIRED = ["apply", "inverse", "pow", "word"]
 ASSUMPTIONS = ["numpy tensordot/linalg trusted for the float reference; exact inverse for integer matrices",
